@@ -279,3 +279,11 @@ def expand_locals(fn_node: ast.AST, expr: ast.AST, depth: int = 5) -> ast.AST:
             return node
 
     return _X(depth).visit(copy.deepcopy(expr))
+
+
+def value_leaves(e: ast.expr) -> List[ast.expr]:
+    """The alternatives of a (nested) conditional expression: `a if c else (b if d else e)` -> [a, b, e].
+    `path_conditions(fn, leaf)` gives the tests under which each one is the value."""
+    if isinstance(e, ast.IfExp):
+        return value_leaves(e.body) + value_leaves(e.orelse)
+    return [e]
